@@ -22,13 +22,20 @@ EXTS = [".fp.pkl", ".fp.gz", ".fp.bz2"]
 FULL_ENTRIES = ("dict", "dict_all_iters")
 
 
-def sub_mol(ref, nconf, name):
-    """molecule with the first `nconf` conformers of ref (cycled if it has fewer) and the given name"""
+def sub_mol(ref, nconf, name, idmode=None):
+    """molecule with the first `nconf` conformers of ref (cycled if it has fewer) and the given name.  `idmode`: the ids the
+    conformers carry - sequential (None), all 0 (a molecule assembled with Mol.AddConformer(conf), whose default keeps the id),
+    arbitrary, or reversed: a conformer is identified by its position"""
     src = MG.load_ref(ref)
     m = Chem.Mol(src)
     m.RemoveAllConformers()
     for j in range(nconf):
-        m.AddConformer(Chem.Conformer(src.GetConformer(j % src.GetNumConformers())), assignId=True)
+        c = Chem.Conformer(src.GetConformer(j % src.GetNumConformers()))
+        if idmode in (None, "sequential"):
+            m.AddConformer(c, assignId=True)
+        else:
+            c.SetId({"all-zero": 0, "arbitrary": 7 * j + 3, "reversed": nconf - 1 - j}[idmode])
+            m.AddConformer(c, assignId=False)
     if name is None:
         if m.HasProp("_Name"):
             m.ClearProp("_Name")
@@ -104,6 +111,9 @@ class C14(vlib.Check):
             if entry in ("from_sdf", "save") and name is None:
                 name = "named"
             case = {"t": "entry", "ref": ref, "nconf": nconf, "first": first, "opts": o, "entry": entry, "name": name}
+            if entry != "from_sdf" and rng.random() < 0.4:
+                case["idmode"] = rng.choice(["all-zero", "arbitrary", "reversed"])
+                self.count("conformer-ids:" + case["idmode"])
             if entry == "save":
                 case["ext"] = rng.choice(EXTS)
                 case["all_iters"] = rng.random() < 0.5
@@ -124,7 +134,7 @@ class C14(vlib.Check):
     # ------------------------------------------------------------------ running an entry point
     def _run_entry(self, case):
         o = dict(case["opts"])
-        mol = sub_mol(case["ref"], case["nconf"], case["name"])
+        mol = sub_mol(case["ref"], case["nconf"], case["name"], case.get("idmode"))
         params = fp_params(o, case["first"])
         e = case["entry"]
         if e == "from_mol":
@@ -211,16 +221,16 @@ class C14(vlib.Check):
             ops.append({"op": "pipe.save_run", "name": "m", "level": lvl, "all_iters": bool(case.get("all_iters")), "overwrite": False, "ok": True, "pre": pre})
         if case["entry"] in FULL_ENTRIES:
             import numpy as np
-            mol = sub_mol(case["ref"], case["nconf"], case["name"])
+            mol = sub_mol(case["ref"], case["nconf"], case["name"], case.get("idmode"))
             o = dict(case["opts"], level=lvl)
             mult = o.pop("radius_multiplier")
             for k in (0, 1, 2):      # the conformers as they are, and two 3e-14 A perturbations (round-off band detection)
                 confs = []
                 for ci in range(mol.GetNumConformers()):
-                    cs = MG.coords_of(mol.GetConformer(ci))
+                    cs = MG.coords_of(list(mol.GetConformers())[ci])
                     if k:
                         r = np.random.RandomState(k)
-                        X = np.array([[p.x, p.y, p.z] for p in (mol.GetConformer(ci).GetAtomPosition(i) for i in range(mol.GetNumAtoms()))])
+                        X = np.array([[p.x, p.y, p.z] for p in (list(mol.GetConformers())[ci].GetAtomPosition(i) for i in range(mol.GetNumAtoms()))])
                         X = X + r.uniform(-1, 1, X.shape) * 3e-14
                         cs = [[i, MG.fbits(X[i, 0]), MG.fbits(X[i, 1]), MG.fbits(X[i, 2])] for i in range(len(X))]
                     confs.append(cs)
@@ -267,7 +277,7 @@ class C14(vlib.Check):
         out = []
         for j in range(n):
             f = MG.make_fprinter(dict(o, level=level))
-            f.run(mol.GetConformer(j), mol)
+            f.run(list(mol.GetConformers())[j], mol)      # by position: ids need not be 0..n-1
             out.append(dump_fp(f.get_fingerprint_at_level(level)))
         return out
 
@@ -291,7 +301,7 @@ class C14(vlib.Check):
                 return {"key": "from-smiles-history-dependent", "what": "fprints_from_smiles with first=%s returned %s fingerprints; each call alone returns %s" % (case["firsts"], outs, ref)}
             return None
         o = case["opts"]
-        mol = sub_mol(case["ref"], case["nconf"], case["name"])
+        mol = sub_mol(case["ref"], case["nconf"], case["name"], case.get("idmode"))
         if not in_dom(mol, o, case["entry"]):
             return None
         name = case["name"]
